@@ -51,6 +51,7 @@ type Req struct {
 	Fail   string     `json:"fail"`  // "" | "boom" (panicking function) | "cond" (non-boolean condition)
 	NoRet  bool       `json:"noret"` // isolation sessions: no rule of this request returns a value
 	NoData bool       `json:"nodata"` // the request passes an empty data map (its rules then fail: nothing is injected)
+	Bulk   int        `json:"bulk"`   // this many further entries in the data map that no rule looks at (a big request)
 	// Trigger: this request performs the update from inside rule TrigRule
 	Trigger  *Update `json:"trigger"`
 	TrigRule string  `json:"trigrule"`
@@ -347,6 +348,15 @@ func (d *drv) hook(site string, a, b int64) {
 		if d.sess.GateHooks {
 			d.o.Park(site)
 		}
+	case "clear", "put":
+		// the request drops its data / hands its instance back (in this order, and both while it holds the instance)
+		d.mu.Lock()
+		q, ok := d.byGo[goid()]
+		d.mu.Unlock()
+		if !ok {
+			q = -1
+		}
+		d.o.Emit(obs.Event{"ev": site, "q": q, "i": a})
 	case "push":
 		d.o.Emit(obs.Event{"ev": "push", "i": a, "locked": b % 2, "len": b / 2})
 		atomic.AddInt64(&d.npush, 1)
@@ -456,6 +466,9 @@ func (d *drv) request(r *Req, cv bool) {
 	data := map[string]interface{}{"req": &Obj{Id: r.Q}}
 	for _, k := range r.Keys {
 		data[k] = &Obj{Id: r.Q}
+	}
+	for i := 0; i < r.Bulk; i++ {
+		data[fmt.Sprintf("bulk_%d_%d", r.Q, i)] = int64(i)
 	}
 	if r.NoData {
 		data = map[string]interface{}{}
